@@ -959,7 +959,7 @@ def _(I, ctx, w, buf):
     elif isinstance(sink, list): sink.extend(items)
     else: raise Unsupported('write_all sink ' + repr(sink)[:40])
     return OK(UNIT)
-@model('re:^core::panicking::(panic|panic_fmt|panic_explicit|unreachable_display|panic_nounwind)$', 're:^std::rt::(begin_panic|panic_fmt)$',
+@model('panic_fmt', 'panic', 'panic_explicit', 're:^core::panicking::(panic|panic_fmt|panic_explicit|unreachable_display|panic_nounwind)$', 're:^std::rt::(begin_panic|panic_fmt)$',
        're:^core::panicking::assert_failed$', 're:^core::option::(unwrap_failed|expect_failed)$', 're:^core::result::unwrap_failed$',
        're:^core::panicking::panic_bounds_check$', 're:^core::slice::index::.*_fail$', 're:^core::str::slice_error_fail$')
 def _(I, ctx, *a):
